@@ -813,18 +813,21 @@ package server
 //@   requires c != nil
 //@   ensures [stale-refused] epoch < old(c.epoch) ==> result != nil && c.epoch == old(c.epoch)
 //@   ensures [epoch-adopted] result == nil ==> c.epoch == epoch
+//@   ensures [current-accepted] epoch >= old(c.epoch) ==> result == nil
 //@   call addMember requires [only-when-accepted] epoch >= c.epoch && arg1 == consumerID
 //@ func (*consumerGroup).RemoveMember serves C12
 //@   returns (last, err)
 //@   requires c != nil
 //@   ensures [stale-refused] epoch < old(c.epoch) ==> err != nil && c.epoch == old(c.epoch)
 //@   ensures [epoch-adopted] err == nil ==> c.epoch == epoch
+//@   ensures [current-accepted] epoch >= old(c.epoch) && (consumerID in old(c.members)) ==> err == nil
 //@   ensures [member-gone] err == nil ==> !(consumerID in c.members)
 //@   call removeConsumer requires [only-when-accepted] epoch >= c.epoch
 //@ func (*consumerGroup).StreamDeleted serves C12
 //@   requires c != nil
 //@   ensures [stale-refused] epoch < old(c.epoch) ==> result != nil && c.epoch == old(c.epoch)
 //@   ensures [forgotten] result == nil ==> !(stream in c.subscribers)
+//@   ensures [current-accepted] epoch >= old(c.epoch) ==> result == nil
 // assignments are served only by the coordinator and only for the current epoch
 //@ func (*consumerGroup).GetAssignments serves C12
 //@   returns (assignments, gepoch, err)
